@@ -2293,7 +2293,8 @@ class AllConnGraph(nx.DiGraph):
             if not ambig_val:
                 val = self.get_val_from_children(model, node, children_meta, node_meta.defaults,
                                                  auto)
-                if val is not None:
+                # a later pass must not overwrite a value set by the user after the first pass
+                if val is not None and (self._first_pass or node_meta.val is None):
                     if node[1].startswith('_auto_ivc.'):
                         val = deepcopy(val)
                         node_meta.val = val
